@@ -58,7 +58,7 @@ fn spec(t: Tier) -> Spec {
     Spec {
         id: "C19",
         level: "model_checking",
-        rule: format!("every history of <= {} child outcomes over {{exit 0,1,2,125,255; SIGTERM, SIGKILL, the real-time signals 34 and 64; exec failing with ENOENT, EACCES, ENOEXEC, ENOTDIR}} is injected (hook H2) into the real xargs_main run with -n1 (and -n2) over enough input; exit status and the number of invocations started must equal the reference function (0 / 123 / 124 / 125 / 126 / 127, stop at once, continue past 1..125); state = (sticky failed flag from hook H3 | terminated), transitions = outcomes; scale slice: histories of 300 and 1000 invocations, successful except for each outcome at the first, second, 150th, 256th, 257th, last-but-one and last position, combined with a second failure (exit 1 early, exit 255 last, exit 3 at #260); own errors (bad option values, unterminated quote, argument too long) must give 1; real-children slice: histories <= 3 over {{0,1,255,SIGTERM,SIGKILL,signal 34,unlink-self,chmod-self}} with a real recorder child must give the same statuses", bounds(t)),
+        rule: format!("every history of <= {} child outcomes over {{exit 0,1,2,125,255; SIGTERM, SIGKILL, the real-time signals 34 and 64; exec failing with ENOENT, EACCES, ENOEXEC, ENOTDIR}} is injected (hook H2) into the real xargs_main run with -n1 (and -n2) over enough input; exit status and the number of invocations started must equal the reference function (0 / 123 / 124 / 125 / 126 / 127, stop at once, continue past 1..125); state = (sticky failed flag from hook H3 | terminated), transitions = outcomes; scale slice: histories of 300 and 1000 invocations, successful except for each outcome at the first, second, 150th, 256th, 257th, last-but-one and last position, combined with a second failure (exit 1 early, exit 255 last, exit 3 at #260); xargs without a command (its own echo) with standard output /dev/full or a pipe whose reader has gone: 123 or 1, never a panic or 0; own errors (bad option values, unterminated quote, argument too long) must give 1; real-children slice: histories <= 3 over {{0,1,255,SIGTERM,SIGKILL,signal 34,unlink-self,chmod-self}} with a real recorder child must give the same statuses", bounds(t)),
         bound: json!({"history_len": bounds(t), "outcomes": OUTCOMES.iter().map(|o| oname(*o)).collect::<Vec<_>>()}),
         assumptions: vec!["child statuses 126..254 are not judged".into()],
         shards: 0,
@@ -201,6 +201,9 @@ fn run(ctx: &mut Ctx) {
         own_errors(ctx);
     }
     real_children(ctx);
+    if ctx.shard == 2 % ctx.nshards {
+        builtin_echo_unwritable(ctx);
+    }
     let _ = std::fs::remove_file(&file);
 }
 
@@ -244,6 +247,51 @@ fn own_errors(ctx: &mut Ctx) {
 
 /// histories with real children: a private copy of the recorder that exits, kills itself,
 /// unlinks or chmods its own executable as scripted
+/// xargs without a command echoes the arguments itself: when that output cannot be written
+/// (standard output is /dev/full, or a pipe whose reader has gone) the "invocation" has failed —
+/// exit status 123 like a failing echo child (1 is accepted too) — never a panic, never 0.
+fn builtin_echo_unwritable(ctx: &mut Ctx) {
+    use std::io::Write;
+    use std::os::unix::io::FromRawFd;
+    use std::os::unix::process::ExitStatusExt;
+    use std::process::{Command, Stdio};
+    let exe = crate::engine::repo_bin_dir().join("xargs");
+    for dest in ["/dev/full", "closed pipe", "/dev/null"] {
+        for opts in [&[][..], &["-n1"][..], &["-I", "{}"][..]] {
+            let out: Stdio = if dest == "closed pipe" {
+                let mut fds = [0i32; 2];
+                if unsafe { libc::pipe(fds.as_mut_ptr()) } != 0 {
+                    ctx.rep.machinery("pipe()".into());
+                    continue;
+                }
+                unsafe { libc::close(fds[0]) };
+                unsafe { Stdio::from(std::fs::File::from_raw_fd(fds[1])) }
+            } else {
+                Stdio::from(std::fs::OpenOptions::new().write(true).open(dest).unwrap())
+            };
+            let child = Command::new(&exe).args(opts).current_dir(&ctx.sbx).env_clear().stdin(Stdio::piped()).stdout(out).stderr(Stdio::piped()).spawn();
+            let Ok(mut child) = child else {
+                ctx.rep.machinery("spawn xargs".into());
+                continue;
+            };
+            let _ = child.stdin.take().unwrap().write_all(b"a b\nc\n");
+            let Ok(o) = child.wait_with_output() else { continue };
+            ctx.rep.evaluations += 1;
+            ctx.rep.nontrivial += 1;
+            ctx.rep.count("builtin_echo_runs", 1);
+            let (code, sig) = (o.status.code(), o.status.signal());
+            let ok = if dest == "/dev/null" { code == Some(0) } else { matches!(code, Some(123) | Some(1)) || sig == Some(libc::SIGPIPE) };
+            if !ok {
+                ctx.rep.violation(
+                    &format!("C19 xargs without a command: {} when its own echo cannot be written", if matches!(code, Some(101) | Some(134)) { "panic" } else if code == Some(0) { "exit status 0" } else { "unexpected status" }),
+                    format!("xargs {:?} with standard output {dest}: code {:?} signal {:?} stderr {:?}", opts, code, sig, String::from_utf8_lossy(&o.stderr).chars().take(200).collect::<String>()),
+                    json!({"prop":"C19","echo":dest}),
+                );
+            }
+        }
+    }
+}
+
 fn real_children(ctx: &mut Ctx) {
     use std::io::Write;
     let maxlen = ctx.tier.pick(2, 3);
@@ -328,6 +376,10 @@ fn real_children(ctx: &mut Ctx) {
 }
 
 fn replay(case: &Value, ctx: &mut Ctx) -> Option<String> {
+    if case["echo"].is_string() {
+        builtin_echo_unwritable(ctx);
+        return ctx.rep.violations.keys().next().cloned();
+    }
     let file = ctx.sbx.join(".mc-xin");
     let names: Vec<String> = case["history"].as_array()?.iter().map(|v| v.as_str().unwrap_or("").to_string()).collect();
     let h: Vec<Outcome> = names.iter().filter_map(|n| OUTCOMES.iter().copied().find(|o| oname(*o) == *n)).collect();
